@@ -51,6 +51,10 @@ import (
 
 const lcShard = 1
 
+// lcAuxShard: a second shard on the same engine whose only job is to keep the
+// single snapshot worker busy (scenarios with Aux)
+const lcAuxShard = 2
+
 // ---------------------------------------------------------------- monitor (the call table of the property statement)
 
 type lcMon struct {
@@ -240,9 +244,10 @@ func (s *lcDiskSM) Close() error {
 // ---------------------------------------------------------------- world
 
 type lcLoader struct {
-	registered bool
+	registered bool // main shard published
 	cci        uint64
-	n          *node
+	n          *node // main shard (lcShard)
+	aux        *node // auxiliary shard (lcAuxShard), registered from the start when present
 }
 
 func (l *lcLoader) describe() string         { return "lchost" }
@@ -251,23 +256,29 @@ func (l *lcLoader) forEachShard(f func(uint64, *node) bool) uint64 {
 	if l.registered {
 		f(lcShard, l.n)
 	}
+	if l.aux != nil {
+		f(lcAuxShard, l.aux)
+	}
 	return l.cci
 }
 
 // lcScenario: Host is the NodeHost thread's program, Reader the number of
 // StaleRead calls of a second client thread.
 type lcScenario struct {
-	Name   string   `json:"name"`
-	Kind   string   `json:"kind"`
-	Warm   bool     `json:"warm"` // node initialised, leader elected and two entries applied before the threads start
+	Name string `json:"name"`
+	Kind string `json:"kind"`
+	Warm bool   `json:"warm"` // node initialised, leader elected and two entries applied before the threads start
 	// Restart: a first incarnation (warm, snapshot taken, one more entry) ran on
 	// the same store and directory; the threads start with the second incarnation
-	Restart bool `json:"restart"`
-	Host   []string `json:"host"`
-	Reader int      `json:"reader"`
-	Notify bool     `json:"notify_commit"`
+	Restart bool     `json:"restart"`
+	Host    []string `json:"host"`
+	Reader  int      `json:"reader"`
+	Notify  bool     `json:"notify_commit"`
 	// SlowClose: the user's Close returns only once nothing else can run
 	SlowClose bool `json:"slow_close,omitempty"`
+	// Aux: a second warm shard (lcAuxShard) is loaded on the engine; host op B
+	// requests a snapshot of it, wb waits until its SaveSnapshot is in progress
+	Aux bool `json:"aux,omitempty"`
 }
 
 type lcReq struct {
@@ -290,6 +301,9 @@ type lcWorld struct {
 	fs      vfs.IFS
 	db      *memlogdb.DB
 	pool    *sync.Pool
+	aux     *node
+	auxMon  *lcMon
+	oldMons []*lcMon // user state machines of earlier incarnations of the main shard (host op N)
 }
 
 func (w *lcWorld) fail(f string, a ...interface{}) {
@@ -302,17 +316,17 @@ func lcQuiet() {
 	}
 }
 
-func (w *lcWorld) newNodeOn(e *engine, mon *lcMon) *node {
+func (w *lcWorld) newNodeOn(e *engine, mon *lcMon, shard uint64) *node {
 	sc := w.sc
-	snapdir := "/snap-1"
+	snapdir := fmt.Sprintf("/snap-%d", shard)
 	if err := w.fs.MkdirAll(snapdir, 0755); err != nil {
 		panic(err)
 	}
 	rootDirFunc := func(cid uint64, nid uint64) string { return snapdir }
-	lr := logdb.NewLogReader(lcShard, 1, w.db)
-	ss := newSnapshotter(lcShard, 1, rootDirFunc, w.db, lr, w.fs)
+	lr := logdb.NewLogReader(shard, 1, w.db)
+	ss := newSnapshotter(shard, 1, rootDirFunc, w.db, lr, w.fs)
 	lr.SetCompactor(ss)
-	cfg := config.Config{ReplicaID: 1, ShardID: lcShard, ElectionRTT: 10, HeartbeatRTT: 2, CompactionOverhead: 1000}
+	cfg := config.Config{ReplicaID: 1, ShardID: shard, ElectionRTT: 10, HeartbeatRTT: 2, CompactionOverhead: 1000}
 	create := func(shardID uint64, replicaID uint64, done <-chan struct{}) rsm.IManagedStateMachine {
 		switch sc.Kind {
 		case "plain":
@@ -361,7 +375,7 @@ func lcNewWorld(sc *lcScenario, r *vsched.Run) *lcWorld {
 		// first incarnation, entirely in controller context
 		mon0 := newLcMon(sc.Kind)
 		e0 := lcBareEngine(w.db, sc.Notify)
-		n0 := w.newNodeOn(e0, mon0)
+		n0 := w.newNodeOn(e0, mon0, lcShard)
 		n0.loaded()
 		settle := w.warmUp(n0, e0, mon0)
 		rs, err := n0.requestSnapshot(SnapshotOption{}, 100)
@@ -413,12 +427,20 @@ func lcNewWorld(sc *lcScenario, r *vsched.Run) *lcWorld {
 	}
 	names = append(names, "apply")
 	r.SetNames(names)
-	n := w.newNodeOn(w.eng, w.mon)
+	n := w.newNodeOn(w.eng, w.mon, lcShard)
 	w.n = n
 	w.ldr.n = n
 	n.loaded() // NodeHost.startShard holds one reference
 	if sc.Warm {
 		w.warmUp(n, w.eng, w.mon)
+	}
+	if sc.Aux {
+		w.auxMon = newLcMon(sc.Kind)
+		w.aux = w.newNodeOn(w.eng, w.auxMon, lcAuxShard)
+		w.aux.loaded()
+		w.warmUp(w.aux, w.eng, w.auxMon)
+		w.ldr.aux = w.aux
+		w.ldr.cci++
 	}
 	return w
 }
@@ -428,8 +450,9 @@ func lcNewWorld(sc *lcScenario, r *vsched.Run) *lcWorld {
 // initialised leader with two applied entries. The worker loops' own ready
 // signals raised meanwhile are drained so the threads start idle.
 func (w *lcWorld) warmUp(n *node, e *engine, mon *lcMon) func() {
-	nodes := map[uint64]*node{lcShard: n}
-	act := func() map[uint64]struct{} { return map[uint64]struct{}{lcShard: {}} }
+	sid := n.shardID
+	nodes := map[uint64]*node{sid: n}
+	act := func() map[uint64]struct{} { return map[uint64]struct{}{sid: {}} }
 	drain := func(wr *workReady) bool {
 		select {
 		case <-wr.waitCh(1):
@@ -449,7 +472,7 @@ func (w *lcWorld) warmUp(n *node, e *engine, mon *lcMon) func() {
 			if drain(e.wp.recoverReady) {
 				busy = true
 				if req, ok := n.ss.getRecoverReq(); ok {
-					if err := (&ssWorker{}).handle(job{task: req, node: n, shardID: lcShard}); err != nil {
+					if err := (&ssWorker{}).handle(job{task: req, node: n, shardID: sid}); err != nil {
 						panic(err)
 					}
 				}
@@ -457,7 +480,7 @@ func (w *lcWorld) warmUp(n *node, e *engine, mon *lcMon) func() {
 			if drain(e.wp.saveReady) {
 				busy = true
 				if req, ok := n.ss.getSaveReq(); ok {
-					if err := (&ssWorker{}).handle(job{task: req, node: n, shardID: lcShard}); err != nil {
+					if err := (&ssWorker{}).handle(job{task: req, node: n, shardID: sid}); err != nil {
 						panic(err)
 					}
 				}
@@ -483,17 +506,17 @@ func (w *lcWorld) warmUp(n *node, e *engine, mon *lcMon) func() {
 	vp.ForceElectionTimeout()
 	n.mq.Tick()
 	n.mq.Add(pb.Message{Type: pb.LocalTick, To: 1, From: 1, Hint: n.pendingReadIndexes.getTick() + 1})
-	e.setStepReady(lcShard)
+	e.setStepReady(sid)
 	settle()
 	if !vp.IsLeader() {
 		panic("warm-up: replica did not become leader")
 	}
 	for i := 0; i < 2; i++ {
-		rs, err := n.propose(&client.Session{ShardID: lcShard, ClientID: 7001, SeriesID: client.NoOPSeriesID}, []byte{byte(i)}, 100)
+		rs, err := n.propose(&client.Session{ShardID: sid, ClientID: 7001, SeriesID: client.NoOPSeriesID}, []byte{byte(i)}, 100)
 		if err != nil {
 			panic(err)
 		}
-		e.setStepReady(lcShard)
+		e.setStepReady(sid)
 		settle()
 		select {
 		case res := <-rs.CompletedC:
@@ -548,6 +571,14 @@ func lcSetup(sc *lcScenario, wp **lcWorld) func(r *vsched.Run) {
 			})
 		}
 	}
+}
+
+// the user method in which the auxiliary shard's snapshot job is held
+func (w *lcWorld) auxHeldMethod() string {
+	if w.sc.Kind == "ondisk" {
+		return "Sync" // an on-disk state machine's local snapshot is Sync + a dummy image
+	}
+	return "SaveSnapshot"
 }
 
 func (w *lcWorld) last() *lcReq {
@@ -610,6 +641,51 @@ func (w *lcWorld) hostOp(op string) {
 			n.mq.Add(pb.Message{Type: pb.LocalTick, To: 1, From: 1, Hint: n.pendingReadIndexes.getTick() + 1})
 			e.setAllStepReady([]*node{n})
 		}
+	case "B": // RequestSnapshot on the auxiliary shard (keeps the single snapshot worker busy)
+		if w.aux != nil {
+			if _, err := w.aux.requestSnapshot(SnapshotOption{}, 100); err != nil {
+				w.fail("aux snapshot request: %v", err)
+			}
+			e.setStepReady(lcAuxShard)
+		}
+	case "wb": // wait until the auxiliary shard's snapshot job is inside user code; it is held there until op "rb"
+		if w.auxMon != nil {
+			m := w.auxHeldMethod()
+			w.auxMon.waitFor[m] = true
+			vsched.Await(func() bool { return w.auxMon.active[m] > 0 }, "aux "+m+" in progress")
+		}
+	case "rb": // let the auxiliary shard's snapshot job go on
+		if w.auxMon != nil {
+			w.auxMon.waitFor[w.auxHeldMethod()] = false
+		}
+	case "q": // wait until nothing else can run
+		vsched.Await(func() bool { return vsched.Quiescent() }, "quiescence")
+	case "wq": // wait until a snapshot job is queued in the pool behind the busy worker
+		vsched.Await(func() bool { return len(e.wp.pending) > 0 }, "a job pending in the snapshot pool")
+	case "N": // NodeHost.StartReplica of the main shard again after StopShard: a new incarnation.
+		// startShard refuses (ErrShardAlreadyExist) while the engine still has the old node
+		// loaded; the host waits for that like a caller that retries.
+		vsched.Await(func() bool {
+			for _, m := range e.loaded.nodes { // unlocked read: only one thread runs at a time
+				if _, ok := m[lcShard]; ok {
+					return false
+				}
+			}
+			return true
+		}, "old incarnation unloaded by every worker")
+		w.oldMons = append(w.oldMons, w.mon)
+		w.mon = newLcMon(w.sc.Kind)
+		if w.sc.Kind == "ondisk" {
+			w.mon.openIdx = w.oldMons[len(w.oldMons)-1].lastIdx
+		}
+		n2 := w.newNodeOn(e, w.mon, lcShard)
+		w.n = n2
+		n2.loaded()
+		w.ldr.n = n2
+		w.ldr.registered = true
+		w.ldr.cci++
+		e.setCCIReady(lcShard)
+		e.setApplyReady(lcShard)
 	case "k": // the workers' node reload tickers fire
 		vtime.FireTickers(0)
 	case "X": // NodeHost.stopNode
@@ -651,6 +727,16 @@ func (w *lcWorld) judge(o *vsched.Outcome) (map[string]string, []string) {
 	for key, v := range w.mon.finds {
 		finds[key] = v
 	}
+	for _, om := range w.oldMons {
+		for key, v := range om.finds {
+			finds["earlier-incarnation/"+key] = "state machine of an earlier incarnation of the shard: " + v
+		}
+	}
+	if w.auxMon != nil {
+		for key, v := range w.auxMon.finds {
+			finds["aux-shard/"+key] = "auxiliary shard: " + v
+		}
+	}
 	for _, e := range w.errs {
 		finds[k+"/error/"+lcNum.ReplaceAllString(e, "N")] = "unexpected error: " + e
 	}
@@ -686,6 +772,14 @@ func (w *lcWorld) judge(o *vsched.Outcome) (map[string]string, []string) {
 	}
 	sort.Strings(cs)
 	classes = append(classes, "calls:"+strings.Join(cs, ","))
+	for i, om := range w.oldMons {
+		var ocs []string
+		for key, n := range om.calls {
+			ocs = append(ocs, fmt.Sprintf("%s×%d", key, n))
+		}
+		sort.Strings(ocs)
+		classes = append(classes, fmt.Sprintf("incarnation%d-calls:%s", i, strings.Join(ocs, ",")))
+	}
 	if len(o.Parked) > 0 {
 		classes = append(classes, fmt.Sprintf("parked:%d", len(o.Parked)))
 	}
@@ -734,6 +828,12 @@ func lcScenarios(thorough bool) []lcScenario {
 			add(kind, true, "R S wp X C", 0)
 			add(kind, true, "R S ws P wu X C", 0)
 		}
+		// the only snapshot worker is busy with another shard while this shard's
+		// snapshot job waits in the pool; the shard is stopped and started again
+		out = append(out, lcScenario{Name: kind + "/aux-restart/R B wb S wq X N rb q C", Kind: kind, Warm: true, Aux: true,
+			Host: strings.Fields("R B wb S wq X N rb q C")})
+		out = append(out, lcScenario{Name: kind + "/aux-stop/R B wb S wq X rb q C", Kind: kind, Warm: true, Aux: true,
+			Host: strings.Fields("R B wb S wq X rb q C")})
 		// proposal in flight
 		add(kind, true, "R P X C", 0)
 		add(kind, true, "R P wu X C", 0)
@@ -799,6 +899,7 @@ func TestVerifC11Lifecycle(t *testing.T) {
 	}
 	res.Rule = fmt.Sprintf("case = one complete schedule of the real engine goroutines (step, apply, snapshot pool main + worker, close pool main + worker) plus a NodeHost thread (and a StaleRead client) over one real node with an instrumented user state machine; every schedule with <= %d (scenarios without a positioning wait: one less) deviations from the default schedule (running thread first, else lowest thread id; a deviation is any other choice at any scheduling point, which includes every preemption) of each scenario is executed; non-trivial = at least two user state machine methods were called and the schedule has a preemption or an observed overlap", bound)
 	res.Assumptions = []string{
+		"two-shard (aux) scenarios: the order in which the engine walks its shard maps is Go map iteration order; diverging re-executions are retried (lifecycle_divergence_retries), so that order is sampled, not enumerated",
 		"schedx: scheduling points at every sync/atomic operation and channel statement of engine.go, node.go, request.go, queue.go, quiesce.go, snapshotstate.go and internal/rsm, and inside every user state machine method; code of other packages runs atomically between two points",
 		"when several cases of a select are ready the choice is part of the schedule (default: first in source order, every other ready case costs one deviation); tickers and timers only fire when the scenario says so",
 		fmt.Sprintf("deviation bound %d for the scenarios in which the host waits for a user method to be in progress, one less for the others; single-replica shard; one step/apply/snapshot/close worker", bound),
@@ -855,8 +956,12 @@ func TestVerifC11Lifecycle(t *testing.T) {
 		salt := verifkit.Hash64(sc.Name)
 		st := vsched.Explore(vsched.Config{
 			Bound: scBound, Horizon: lcHorizon, SplitDepth: 1, VerifyEvery: 97, GCEvery: 64, CostAll: true,
-			Mine:    func(k uint64) bool { return run.Mine((k ^ salt) % 1000003) },
-			Expired: run.Expired,
+			// two shards on one engine: the order in which the engine's loops walk their
+			// shard maps is Go map order, which the scheduler does not own; a re-execution
+			// whose prefix diverges for that reason is retried (counted)
+			DivergenceRetries: map[bool]int{true: 4096, false: 0}[sc.Aux],
+			Mine:              func(k uint64) bool { return run.Mine((k ^ salt) % 1000003) },
+			Expired:           run.Expired,
 			Observe: func(o *vsched.Outcome) string {
 				_, classes := w.judge(o)
 				return strings.Join(classes, " ") + fmt.Sprint(w.errs)
